@@ -491,11 +491,14 @@ func scenarios(thorough bool) []scenario {
 		{name: "same-piece flip/ok+retry", spec: b2, pre: nil, threads: [][]wr{{{0, "flip"}, {1, "ok"}}, {{0, "ok"}, {0, "ok"}}}},
 		{name: "last-two-race-to-commit", spec: b3, pre: []int{0}, threads: [][]wr{{{1, "ok"}}, {{2, "ok"}}}, observer: true},
 		{name: "two-writers-two-pieces-each", spec: b3, pre: nil, threads: [][]wr{{{0, "ok"}, {2, "ok"}}, {{1, "ok"}, {2, "ok"}}}},
+		// three payloads for one piece in flight (endgame): a writer turned away by
+		// a conflict must not disturb the reservation of the writer in progress
+		{name: "three-writers-same-piece", spec: b2, pre: nil, threads: [][]wr{{{0, "ok"}}, {{0, "flip"}}, {{0, "ok"}}}},
 	}
 	if thorough {
 		sc = append(sc,
 			scenario{name: "three-writers-race-to-commit", spec: b3, pre: nil, threads: [][]wr{{{0, "ok"}}, {{1, "ok"}}, {{2, "ok"}}}, observer: true},
-			scenario{name: "three-writers-same-piece", spec: b2, pre: []int{1}, threads: [][]wr{{{0, "ok"}}, {{0, "flip"}}, {{0, "ok"}}}},
+			scenario{name: "three-writers-same-piece-commit", spec: b2, pre: []int{1}, threads: [][]wr{{{0, "ok"}}, {{0, "flip"}}, {{0, "ok"}}}},
 			scenario{name: "bad-index-vs-commit", spec: b2, pre: []int{0}, threads: [][]wr{{{1, "ok"}}, {{2, "ok"}, {1, "long"}}}, observer: true},
 		)
 	}
